@@ -144,6 +144,40 @@ _CKEY_STREAM = {"name": "ckey", "harness": "ckey", "driver": "ckey", "judge_driv
 _STORE_STREAM = {"name": "store", "harness": "store", "driver": "store", "quick_cases": 150, "thorough_cases": 3000,
                  "nontrivial": _store_nontrivial, "timeout": 3000}
 
+def _crash_judge(strict):
+    def j(op, impl, spec):
+        if "PANIC" in impl:
+            return False
+        if not strict and " H=" in impl:
+            return True          # outside the hypothesis of the _partial theorem (known finding family)
+        impl = impl.split(" H=")[0]
+        if impl == spec or impl == "img=none":
+            return True
+        if spec.startswith("img="):
+            iv = dict(t.split("=", 1) for t in impl.split() if "=" in t)
+            sv = dict(t.split("=", 1) for t in spec.split() if "=" in t)
+            return iv.get("img") in sv["img"].split("|") and iv.get("re") == "ok"
+        return False
+    return j
+
+
+_CRASH_STREAM = {"name": "crash", "harness": "crash", "driver": "store", "quick_cases": 80, "thorough_cases": 1500,
+                 "judge": _crash_judge(False), "finding_judge": _crash_judge(True), "model_is_spec": True,
+                 "nontrivial": lambda lines: sum("@" in l.split(" ")[0] or l == "crash" for l in lines) >= 3,
+                 "timeout": 3000}
+_CRASH_RULE = ("workloads of write transactions (1-8 writes, values up to 900 bytes, deletes) on a real Tree with 1-3 levels, "
+               "memtables of 16 KiB - 1 MiB (write-heavy cases fill the memtable so that rotation happens inside a commit), "
+               "value log on/off; the directory is copied (process-crash image) at operation boundaries and at the n-th yield point "
+               "INSIDE commit, rotation, flush, manifest replacement and compaction (yield points at every file-system boundary "
+               "of those operations); every image is opened with the real TreeBuilder, scanned (must equal the state before or "
+               "after the interrupted transaction, all acknowledged commits included), written to, closed cleanly, opened again "
+               "and scanned again; cases in which a rotation happened between a batch's WAL append and the end of its apply are "
+               "outside H (known finding) and counted, not judged; non-trivial = at least 3 crash images; distinct = distinct op lists")
+_CRASH_ASSUME = ["process-crash model only: every completed write is kept; power loss (unsynced data lost, namespace operations "
+                 "undone) is not explored by this check and not modelled by the theorems (partial)",
+                 "crash instants are the yield points (file-system boundaries of the engine operations), not arbitrary byte "
+                 "positions inside one write; torn records are covered by C12's sweep"]
+
 PROPS = {
     "C08": {
         "lean": ["Skv.Props.C08"],
@@ -301,5 +335,26 @@ PROPS = {
             "block-cache transparency is exercised (cache on) but not varied or proved here (see C14 for id reuse)",
         ],
         "trusted_base": ["modelled, not verified: CompactionIterator::process_accumulated_versions; components as value lists"],
+    },
+    "C02": {
+        "lean": ["Skv.Props.C02"], "audit": "Skv/Audit/C02.lean", "streams": [_CRASH_STREAM],
+        "rule": _CRASH_RULE, "assumptions": _CRASH_ASSUME,
+        "trusted_base": ["modelled, not verified: WAL append / rotate_memtable / flush_immutable_to_sst / cleanup_old_segments / "
+                         "Core::new replay, at record granularity (Skv/Model/Durable.lean); byte-level framing is C12's model"],
+    },
+    "C03": {
+        "lean": ["Skv.Props.C02"], "audit": "Skv/Audit/C02.lean", "streams": [_CRASH_STREAM],
+        "rule": _CRASH_RULE, "assumptions": _CRASH_ASSUME,
+        "trusted_base": ["modelled, not verified: the durable-state machine of Skv/Model/Durable.lean; compaction's manifest switch "
+                         "is covered by the crash images only"],
+    },
+    "C07": {
+        "lean": ["Skv.Props.C02"], "audit": "Skv/Audit/C02.lean",
+        "streams": [_CRASH_STREAM, dict(_STORE_STREAM, name="store")],
+        "rule": _CRASH_RULE + "; plus the store-level histories of C01/C06 whose `reopen` operations close and reopen the store "
+                "at level shapes produced by flush and compaction (levels emptied by tombstone compaction, several tables per level)",
+        "assumptions": _CRASH_ASSUME + ["AbsoluteConsistency mode refusing a torn tail is the documented contract (C12), not a C07 violation",
+                                        "a commit larger than the memtable arena is outside this check (it fails and poisons the arena: see C15)"],
+        "trusted_base": ["modelled, not verified: recovery at record granularity; LevelManifest::load_from_file validations are exercised, not modelled"],
     },
 }
